@@ -6,6 +6,7 @@ import MiniMcmcVerif.Driver.C01
 import MiniMcmcVerif.Driver.C18
 import MiniMcmcVerif.Driver.C17
 import MiniMcmcVerif.Driver.Stats
+import MiniMcmcVerif.Driver.C07
 
 open MiniMcmcVerif MiniMcmcVerif.Driver
 
@@ -23,6 +24,7 @@ def dispatch (line : String) : String :=
   | "c12" :: args => c12 args
   | "c12a" :: args => c12a args
   | "c13" :: args => c13 args
+  | "c07" :: args => c07 args
   | _ => "bad-op"
 
 partial def loop (h : IO.FS.Stream) (out : IO.FS.Stream) : IO Unit := do
